@@ -826,5 +826,5 @@ pub mod memsize;
 #[cfg(not(kani))]
 pub fn replay(harness: &str, vals: Vec<Vec<u8>>) -> bool {
     sym::load(vals);
-    ops::dispatch(harness) || iters::dispatch(harness) || capacity::dispatch(harness) || memsize::dispatch(harness)
+    ops::dispatch(harness) || iters::dispatch(harness) || capacity::dispatch(harness) || memsize::dispatch(harness) || memsize::dispatch_big(harness)
 }
